@@ -58,9 +58,11 @@ class Engine:
     def explore(self, fn):
         """run fn() once per feasible path; yields Path objects"""
         import traceback
+        from symx.hygiene import GUARD
         work = [[]]
         while work:
             prefix = work.pop()
+            GUARD()     # every path starts from the module / class level state of a fresh process
             self.prefix = prefix
             self.pos = 0
             self.pc = list(self.base_assumptions)
